@@ -2214,7 +2214,11 @@ func main() {
 		fmt.Fprintln(os.Stderr, "usage: go2coq <repo>")
 		os.Exit(2)
 	}
-	root := os.Args[1]
+	fmt.Print(translate(os.Args[1], whitelist))
+}
+
+// translate never fails: whatever cannot be translated becomes an UNTRANSLATABLE comment
+func translate(root string, whitelist []entry) string {
 	t := &tr{fset: token.NewFileSet(), funcs: map[string]*funcSig{}, pkgs: map[string]*pkgInfo{}, records: map[string]bool{}, iota: -1}
 	files := map[string]*ast.File{}
 	var out strings.Builder
@@ -2285,5 +2289,5 @@ func main() {
 		}
 		out.WriteString(code + "\n")
 	}
-	fmt.Print(out.String())
+	return out.String()
 }
